@@ -66,33 +66,37 @@ M = [
     ("c14-locked-deleted", "C14", "xonsh/history/json.py", '                if only_unlocked and lj.get("locked", False):', '                if only_unlocked and lj.get("locked", False) and False:'),
     ("c14-refusal-off", "C14", "xonsh/history/json.py", "        if self.force_gc or size_over < hsize:", "        if self.force_gc or size_over <= hsize * 4:"),
     # ---- C01 / C03 lexer + parser
-    ("c01-floordiv-token", "C01", "xonsh/parsers/lexer.py", '"//=": "DOUBLEDIVEQUAL",', '"//=": "DIVEQUAL",'),
     ("c01-store-ctx-shallow", "C01", "xonsh/parsers/base.py", "    x.ctx = ast.Store()\n    if isinstance(x, ast.Tuple | ast.List):\n        for e in x.elts:", "    x.ctx = ast.Store()\n    if isinstance(x, ast.Tuple):\n        for e in x.elts:"),
     # ---- C06 capture
-    ("c06-closed-before-put", "C06", "xonsh/procs/readers.py", "        if c:\n            queue.put(c)\n        else:\n            reader.closed = True\n            break", "        if len(c) < 1024:\n            reader.closed = True\n        if c:\n            queue.put(c)\n        else:\n            reader.closed = True\n            break"),
+    # (closing the reader before the last put, or dropping the thread-liveness test from is_fully_read, is harmless alone: two cooperating sites)
+    ("c06-closed-before-put+no-liveness-test", "C06", [("xonsh/procs/readers.py", "        if c:\n            queue.put(c)\n        else:\n            reader.closed = True\n            break", "        if len(c) < 1024:\n            reader.closed = True\n        if c:\n            queue.put(c)\n        else:\n            reader.closed = True\n            break"), ("xonsh/procs/readers.py", "            and (self.thread is None or not self.thread.is_alive())\n", "")]),
     ("c06-one-line-strips-more", "C06", "xonsh/procs/pipelines.py", '                return lines[0].rstrip("\\n")', '                return lines[0].rstrip()'),
     # ---- C12 history
     ("c12-len-after-flush", "C12", "xonsh/history/json.py", "        self.buffer.append(cmd)\n        self._len += 1  # must come before flushing\n", "        self.buffer.append(cmd)\n"),
     ("c12-front-always", "C12", "xonsh/history/json.py", '        """Tests if the flusher is at the front of the queue."""\n        return self is self.queue[0]', '        """Tests if the flusher is at the front of the queue."""\n        return True'),
-    # ---- C18 completion quoting
-    ("c18-quote-choice", "C18", "xonsh/completers/path.py", "    if single in x and double not in x:\n        return double", "    if single in x and double in x:\n        return double"),
+    # ---- C18: (choosing the other quote character in _quote_to_use is an equivalent mutant - the escaping follows the choice)
 ]
 
 
 def _apply_and_run(m, tier):
-    name, cid, rel, old, new = m
+    if len(m) == 3:
+        name, cid, edits = m  # two cooperating sites
+    else:
+        name, cid, rel, old, new = m
+        edits = [(rel, old, new)]
     repo = os.environ.get("VERIF_REPO_BASE", "/repo")
     d = tempfile.mkdtemp(prefix="xmut-")
     t0 = time.time()
     try:
         for sub in ("xonsh", "xontrib", "xompletions"):
             shutil.copytree(os.path.join(repo, sub), os.path.join(d, sub), ignore=shutil.ignore_patterns("__pycache__"))
-        p = os.path.join(d, rel)
-        s = open(p, encoding="utf-8").read()
-        n = s.count(old)
-        if n != 1:
-            return dict(name=name, check=cid, tier=tier, verdict="NOT-APPLIED", line=f"{n} occurrences")
-        open(p, "w", encoding="utf-8").write(s.replace(old, new, 1))
+        for rel, old, new in edits:
+            p = os.path.join(d, rel)
+            s = open(p, encoding="utf-8").read()
+            n = s.count(old)
+            if n != 1:
+                return dict(name=name, check=cid, tier=tier, verdict="NOT-APPLIED", line=f"{n} occurrences in {rel}")
+            open(p, "w", encoding="utf-8").write(s.replace(old, new, 1))
         r = subprocess.run([os.path.join(V, "check"), cid, "--tier", tier, "--no-evidence"], env=dict(os.environ, VERIF_REPO=d), capture_output=True, text=True)
         lines = [l for l in r.stdout.splitlines() if l.startswith(("VIOLATION", "INCONCLUSIVE"))]
         verdict = {1: "CAUGHT", 0: "MISSED", 2: "INCONCLUSIVE"}.get(r.returncode, f"rc={r.returncode}")
@@ -105,7 +109,7 @@ def main():
     a = sys.argv[1:]
     if not a or a[0] == "list":
         for m in M:
-            print(m[0], m[1], m[2])
+            print(m[0], m[1], m[2] if len(m) > 3 else "+".join(sorted({e[0] for e in m[2]})))
         return 0
     tier = a[a.index("--tier") + 1] if "--tier" in a else "quick"
     j = int(a[a.index("-j") + 1]) if "-j" in a else 2
